@@ -6,24 +6,28 @@
 
   Model: Acra.Model.SamDec.decom (= `list(SamDecPcap(file).frames())` with the exception, if any).
   Spec:  Acra.Spec.SamDec (capture / record / packet layouts), Acra.Spec.occ.
-  Items, well-formedness and `FirstSync` (the sync word occurs in the first SAM/DEC packet at the frame
-  starts only) are defined in Acra.Lemmas.SamDec.
+  Items, well-formedness, `FirstSync'` (in the first SAM/DEC packet the first two occurrences of the sync
+  word are the first two frame starts), its list-free form `FirstClean`, the exact condition `FirstLen` and
+  the earlier, stronger `FirstSync` (occurrences at the frame starts only) are defined in Acra.Lemmas.SamDec.
+  The sync pattern may occur as data in any frame but the first of the first SAM/DEC packet.
 
   Outside the statement (DESIGN §8), shown by the examples at the end: a first SAM/DEC packet without a
   sync word raises `Exception`; a frame that does not start with the sync word raises `TypeError`
   (`frame_length = None`, then `int + None`) after the frames before it have been yielded.
 -/
 import Acra.Lemmas.SamDec
+import Acra.Lemmas.SamDecConverse
 namespace Acra.Props.C18
 open Acra.Py Acra.Model.SamDec Acra.Model.Search Acra.Gen.SamDec Acra.Spec Acra.Spec.SamDec Acra.Lemmas.SamDec
 
-/-- `frames_exact`: for a capture built from records (time stamp, item), every item well formed for the
-    common frame length `L`, the decommutator returns the concatenation of all frames in order and ends
-    without an exception -/
-theorem frames_exact (ghdr : Bytes) (L : Nat) (recs : List (Nat × Nat × Item))
+/-- the exact form: for a capture built from records (time stamp, item), every item well formed for the
+    common frame length `L`, and the first SAM/DEC packet one on which the code infers the frame length `L`
+    (`FirstLen`), the decommutator returns the concatenation of all frames in order and ends without an
+    exception.  Nothing is asked of the data of any frame. -/
+theorem frames_exact_of_inferred (ghdr : Bytes) (L : Nat) (recs : List (Nat × Nat × Item))
     (hg : ghdr.length = 24)
     (hwf : ∀ r ∈ recs, r.2.2.WF L)
-    (hfirst : FirstSync L (recs.map (·.2.2))) :
+    (hfirst : FirstLen L (recs.map (·.2.2))) :
     decom (capture ghdr (recs.map fun r => record r.1 r.2.1 r.2.2.bytes)) =
       ((recs.map (·.2.2)).flatMap Item.frames, none) := by
   have hrd := pcapRecords_capture ghdr hg (recs.map fun r => (r.1, r.2.1, r.2.2.bytes))
@@ -43,7 +47,7 @@ theorem frames_exact (ghdr : Bytes) (L : Nat) (recs : List (Nat × Nat × Item))
   simp only [hrd]
   unfold frames
   rw [sync_packed]
-  have := framesLoop_items L (recs.map (·.2.2))
+  have := framesLoop_items_len L (recs.map (·.2.2))
     (by intro it hit
         simp only [List.mem_map] at hit
         obtain ⟨r, hr, rfl⟩ := hit
@@ -51,6 +55,79 @@ theorem frames_exact (ghdr : Bytes) (L : Nat) (recs : List (Nat × Nat × Item))
     none (Or.inr ⟨rfl, hfirst⟩)
   simp only [List.map_map, Function.comp_def] at this
   exact this
+
+/-- the hypothesis of `frames_exact_of_inferred` is not only sufficient but NECESSARY: for a capture of well-formed
+    items the decommutator returns exactly the frames carried (and ends without an exception) if and only if the
+    frame length the code infers from the first SAM/DEC packet is `L`.  (Otherwise every frame it yields has the
+    inferred length, or it raises.) -/
+theorem frames_exact_iff (ghdr : Bytes) (L : Nat) (recs : List (Nat × Nat × Item))
+    (hg : ghdr.length = 24)
+    (hwf : ∀ r ∈ recs, r.2.2.WF L) :
+    decom (capture ghdr (recs.map fun r => record r.1 r.2.1 r.2.2.bytes)) =
+      ((recs.map (·.2.2)).flatMap Item.frames, none) ↔ FirstLen L (recs.map (·.2.2)) := by
+  refine ⟨?_, frames_exact_of_inferred ghdr L recs hg hwf⟩
+  intro h
+  apply Classical.byContradiction
+  intro hbad
+  have hrd := pcapRecords_capture ghdr hg (recs.map fun r => (r.1, r.2.1, r.2.2.bytes))
+    (by intro r hr
+        simp only [List.mem_map] at hr
+        obtain ⟨r', hr', rfl⟩ := hr
+        exact (hwf r' hr').length_lt)
+  simp only [List.map_map, Function.comp_def] at hrd
+  have hgh : List.take SamDec_PCAP_GLOBAL_HEADER_SIZE
+      (capture ghdr (recs.map fun r => record r.1 r.2.1 r.2.2.bytes)) = ghdr := by
+    rw [capture, List.take_left' (by rw [hg]; rfl)]
+  have hhdr : ∃ v, structUnpack SamDec_PCAP_GLOBAL_HEADER_FORMAT ghdr = .ok v := by
+    simp [structUnpack, hg, SamDec_PCAP_GLOBAL_HEADER_FORMAT, Fmt.size, codesSize, Code.size]
+  obtain ⟨v, hv⟩ := hhdr
+  unfold decom getData at h
+  rw [hgh, hv] at h
+  simp only [hrd] at h
+  unfold frames at h
+  rw [sync_packed] at h
+  have := framesLoop_items_conv L (recs.map (·.2.2)) (items_WF_of_recs hwf) hbad
+  simp only [List.map_map, Function.comp_def] at this
+  exact this h
+
+/-- `frames_exact`: for a capture built from records (time stamp, item), every item well formed for the
+    common frame length `L`, the decommutator returns the concatenation of all frames in order and ends
+    without an exception.  `FirstSync'` asks only what the code needs of the first SAM/DEC packet: its first
+    two occurrences of the sync word are the first two frame starts (or its single frame's start is the only
+    occurrence).  The sync pattern may occur as data from the second frame of that packet on, and anywhere
+    in the later packets, as C18 allows. -/
+theorem frames_exact (ghdr : Bytes) (L : Nat) (recs : List (Nat × Nat × Item))
+    (hg : ghdr.length = 24)
+    (hwf : ∀ r ∈ recs, r.2.2.WF L)
+    (hfirst : FirstSync' L (recs.map (·.2.2))) :
+    decom (capture ghdr (recs.map fun r => record r.1 r.2.1 r.2.2.bytes)) =
+      ((recs.map (·.2.2)).flatMap Item.frames, none) :=
+  frames_exact_of_inferred ghdr L recs hg hwf (hfirst.firstLen (items_WF_of_recs hwf))
+
+/-- the same theorem with the hypothesis said without lists: in the first SAM/DEC packet no occurrence of the
+    sync word begins inside the 10-byte header or inside the first frame's data -/
+theorem frames_exact_clean (ghdr : Bytes) (L : Nat) (recs : List (Nat × Nat × Item))
+    (hg : ghdr.length = 24)
+    (hwf : ∀ r ∈ recs, r.2.2.WF L)
+    (hfirst : FirstClean L (recs.map (·.2.2))) :
+    decom (capture ghdr (recs.map fun r => record r.1 r.2.1 r.2.2.bytes)) =
+      ((recs.map (·.2.2)).flatMap Item.frames, none) :=
+  frames_exact ghdr L recs hg hwf ((firstSync'_iff_clean (items_WF_of_recs hwf)).mpr hfirst)
+
+/-- for well-formed items the two ways of saying the hypothesis agree -/
+theorem FirstSync'_iff_FirstClean (L : Nat) (items : List Item) (hwf : ∀ it ∈ items, it.WF L) :
+    FirstSync' L items ↔ FirstClean L items :=
+  firstSync'_iff_clean hwf
+
+/-- the earlier statement (the sync word occurs in the first SAM/DEC packet at the frame starts ONLY) is a
+    corollary -/
+theorem frames_exact_sync_only_at_starts (ghdr : Bytes) (L : Nat) (recs : List (Nat × Nat × Item))
+    (hg : ghdr.length = 24)
+    (hwf : ∀ r ∈ recs, r.2.2.WF L)
+    (hfirst : FirstSync L (recs.map (·.2.2))) :
+    decom (capture ghdr (recs.map fun r => record r.1 r.2.1 r.2.2.bytes)) =
+      ((recs.map (·.2.2)).flatMap Item.frames, none) :=
+  frames_exact ghdr L recs hg hwf (hfirst.firstSync' (items_WF_of_recs hwf))
 
 /-- frame-length inference: one sync word (`k = 1`) gives `len(payload) − 10`, several give
     `offset[1] − offset[0]`; both are the frame length when the sync words are the `k` frame starts -/
@@ -102,8 +179,86 @@ example : FirstSync 6 (exItems.map (·.2.2)) := by
   simp only [exItems, List.map_cons, FirstSync]
   decide
 
+example : FirstSync' 6 (exItems.map (·.2.2)) := by
+  simp only [exItems, List.map_cons, FirstSync']
+  exact Or.inl ⟨[], by decide⟩
+
 example : decom (capture (List.replicate 24 0) (exItems.map fun r => record r.1 r.2.1 r.2.2.bytes)) =
     ([exF 1 2, exF 3 4, exF 5 6], none) := by decide +kernel
+
+/-! The sync pattern as DATA: 10-byte frames; the second frame of the first SAM/DEC packet and the frame of the
+    second packet carry the sync word again in their data (`occ = [10, 20, 25]` in the first packet).  The old
+    hypothesis `FirstSync` fails, `FirstSync'` / `FirstClean` hold, and the frames come back intact. -/
+
+def exG (a : UInt8) (d : Bytes) : Bytes := syncWord ++ [a] ++ d
+def exPlanted : List (Nat × Nat × Item) :=
+  [(1, 2, .foreign (List.replicate 23 0 ++ [6] ++ List.replicate 60 0)),
+   (3, 4, .samdec exL234 0x11000000 7 8 9 0 (List.replicate 10 0)
+      [exG 1 [2, 3, 4, 5, 6], exG 9 (syncWord ++ [9])]),
+   (5, 6, .samdec exL234 0x11000000 8 8 9 0 (List.replicate 10 1) [exG 7 (syncWord ++ [8])])]
+
+example : ∀ r ∈ exPlanted, r.2.2.WF 10 := by
+  intro r hr
+  simp only [exPlanted, List.mem_cons, List.not_mem_nil, or_false] at hr
+  rcases hr with rfl | rfl | rfl
+  · exact ⟨Or.inr (Or.inl (by decide)), by decide⟩
+  · refine ⟨by decide, by decide, by decide, by decide, by decide, by decide, by decide, by decide, by decide, ?_, by decide⟩
+    intro f hf
+    simp only [List.mem_cons, List.not_mem_nil, or_false] at hf
+    rcases hf with rfl | rfl <;> exact ⟨by decide, by decide⟩
+  · refine ⟨by decide, by decide, by decide, by decide, by decide, by decide, by decide, by decide, by decide, ?_, by decide⟩
+    intro f hf
+    simp only [List.mem_cons, List.not_mem_nil, or_false] at hf
+    rcases hf with rfl <;> exact ⟨by decide, by decide⟩
+
+example : occ (List.replicate 10 0 ++ [exG 1 [2, 3, 4, 5, 6], exG 9 (syncWord ++ [9])].flatten) syncWord = [10, 20, 25] := by
+  decide
+
+example : FirstSync' 10 (exPlanted.map (·.2.2)) := by
+  simp only [exPlanted, List.map_cons, FirstSync']
+  exact Or.inl ⟨[25], by decide⟩
+
+example : FirstClean 10 (exPlanted.map (·.2.2)) := by
+  simp only [exPlanted, List.map_cons, FirstClean]
+  decide
+
+example : ¬ FirstSync 10 (exPlanted.map (·.2.2)) := by
+  simp only [exPlanted, List.map_cons, FirstSync]
+  decide
+
+example : decom (capture (List.replicate 24 0) (exPlanted.map fun r => record r.1 r.2.1 r.2.2.bytes)) =
+    ([exG 1 [2, 3, 4, 5, 6], exG 9 (syncWord ++ [9]), exG 7 (syncWord ++ [8])], none) := by decide +kernel
+
+/-! `FirstLen` is strictly weaker than `FirstSync'`: with 8-byte frames and the sync word at offset 2 of the
+    SAM/DEC header the occurrences are `[2, 10, 18]`, the code infers 10 − 2 = 8, and the frames come back. -/
+def exHdrSync : List (Nat × Nat × Item) :=
+  [(3, 4, .samdec exL234 0x11000000 7 8 9 0 ([0, 0] ++ syncWord ++ [0, 0, 0, 0])
+      [syncWord ++ [1, 2, 3, 4], syncWord ++ [5, 6, 7, 8]])]
+example : FirstLen 8 (exHdrSync.map (·.2.2)) := by
+  simp only [exHdrSync, List.map_cons, FirstLen]
+  have : occ ([0, 0] ++ syncWord ++ [0, 0, 0, 0] ++ [syncWord ++ [1, 2, 3, 4], syncWord ++ [5, 6, 7, 8]].flatten) syncWord =
+      [2, 10, 18] := by decide
+  unfold inferLength
+  rw [Acra.Lemmas.Search.bmh_eq_occ _ syncWord (by decide), this]
+  rfl
+example : ¬ FirstSync' 8 (exHdrSync.map (·.2.2)) := by
+  simp only [exHdrSync, List.map_cons, FirstSync']
+  rintro (⟨rest, h⟩ | ⟨h, _⟩)
+  · have : (occ ([0, 0] ++ syncWord ++ [0, 0, 0, 0] ++ [syncWord ++ [1, 2, 3, 4], syncWord ++ [5, 6, 7, 8]].flatten) syncWord).head? = some 2 := by
+      decide
+    rw [h] at this
+    cases this
+  · revert h; decide
+
+example : decom (capture (List.replicate 24 0) (exHdrSync.map fun r => record r.1 r.2.1 r.2.2.bytes)) =
+    ([syncWord ++ [1, 2, 3, 4], syncWord ++ [5, 6, 7, 8]], none) := by decide +kernel
+
+/-! `FirstSync'` is what the code needs of the frame STARTS; the sync pattern inside the first frame's data
+    (here at offset 15 of the payload) makes the code infer the frame length 5 instead of 10: three 5-byte
+    "frames", then `TypeError`. -/
+example : decom (capture (List.replicate 24 0)
+    [record 0 0 (packet exL234 0 0 0 0 0 (List.replicate 10 0) [exG 1 (syncWord ++ [2]), exG 3 [4, 5, 6, 7, 8]])]) =
+    ([syncWord ++ [1], syncWord ++ [2], syncWord ++ [3]], some .type) := by decide +kernel
 
 /-! Outside the hypotheses: no sync word in the first SAM/DEC packet → `Exception`;
     a later frame without sync → the frames before it, then `TypeError`. -/
